@@ -37,10 +37,11 @@ import sys
 import common
 import resolvegen
 import resolvelib as rl
+import srcobl
 
 ID = 'C06'
 LEAN_MODULES = ['Yaql.Props.C06', 'Yaql.Props.C06Reg', 'Yaql.Props.C06Ctx', 'Yaql.Props.C06NonTrans',
-                'Yaql.Props.C06Invoke']
+                'Yaql.Props.C06Invoke'] + srcobl.modules('C06')   # Props/SrcResolve
 P = 'Yaql.Props.C06.'
 REQUIRED_THEOREMS = [P + n for n in (
     'perm_invariant', 'spec_perm_invariant', 'old_order_dependent', 'old_tuple_order_dependent',
@@ -58,7 +59,13 @@ REQUIRED_THEOREMS = [P + n for n in (
         'Ex.resolve_nontransitive_every_order')] + [
     'Yaql.Props.C06Invoke.' + n for n in (
         'callFinal_perm_invariant', 'conversion_failure_is_final', 'conversion_failure_every_order',
-        'chooseFinal_perm', 'Ex.fallback_order_dependent')]
+        'chooseFinal_perm', 'Ex.fallback_order_dependent')] + srcobl.theorems('C06')
+
+
+def generate():
+    return srcobl.generate('C06')     # re-translate runner._is_specialization_of
+
+
 TRUSTED = ['resolvelib.ListContext: the enumeration order of a layer is what its get_functions returns',
            'resolvelib.enc_fd / enc_arg (encoding of the real objects for the model)',
            'the reading of exclusive=True: a layer is exclusive for a name when ANY registration of that name in it said '
